@@ -59,7 +59,7 @@ FRESH = {
     'sylvan_and', 'sylvan_or', 'sylvan_xor', 'sylvan_imp', 'sylvan_biimp', 'sylvan_equiv',
     'sylvan_diff', 'sylvan_ite', 'sylvan_exists', 'sylvan_forall', 'sylvan_and_exists',
     'sylvan_ithvar', 'sylvan_nithvar', 'sylvan_support', 'sylvan_compose', 'sylvan_restrict',
-    'sylvan_constrain', 'sylvan_map_add',
+    'sylvan_constrain',
     'bdd_and', 'bdd_or', 'bdd_xor', 'bdd_not', 'bdd_imp', 'bdd_biimp', 'bdd_ite', 'bdd_apply',
     'bdd_exist', 'bdd_forall', 'bdd_appex', 'bdd_appall', 'bdd_makeset', 'bdd_replace',
     'bdd_ithvar', 'bdd_nithvar', 'bdd_support',
@@ -69,7 +69,7 @@ BORROWED = {
     'Cudd_Not', 'Cudd_Regular', 'Cudd_T', 'Cudd_E', 'Cudd_ReadOne', 'Cudd_ReadLogicZero',
     '_int_to_ddref', '<DdRef>', 'Cudd_ReadZddOne', 'Cudd_ReadZero', 'DD_ONE', 'DD_ZERO',
     'cuddT', 'cuddE', 'sylvan_not', 'sylvan_low', 'sylvan_high', 'sylvan_true', 'sylvan_false',
-    'sylvan_map_empty', 'bdd_true', 'bdd_false', 'bdd_low', 'bdd_high',
+    'bdd_true', 'bdd_false', 'bdd_low', 'bdd_high',
 }
 REFS = {'Cudd_Ref', 'cuddRef', 'sylvan_ref', 'bdd_addref', '_incref', 'incref'}
 DEREFS = {'Cudd_RecursiveDeref', 'Cudd_RecursiveDerefZdd', 'Cudd_IterDerefBdd', 'Cudd_Deref',
@@ -433,6 +433,9 @@ def check_C19(ctx):
             accepted=len(accepted), missing_from_abc_vocabulary=sorted(set(vocab) - set(accepted)),
             declared_via='dd._abc (assert_operator_arity)' if t['via_abc'] else 'module Literal[...]',
             guards_assumed_false=t['guards'],
+            docstring_spellings=sorted(t['documented']),
+            accepted_but_not_in_docstring=(sorted(set(accepted) - set(t['documented']))
+                                           if t['documented'] else None),
             quantifier_vars_mode={al: roles_of(out[1])[3] for al, out in t['rows']
                                   if out[0] == 'ret' and roles_of(out[1]) is not None})
     # operator methods of the handles / `ite` of the managers
